@@ -1194,6 +1194,10 @@ func (r condition) string() string {
 	var raw string
 	if meth := getStringer(r.ex); meth != nil {
 		raw = meth()
+	} else if X, ok := stackTypeAliasConverter(r.ex); ok {
+		raw = X.String()
+	} else if C, ok := conditionTypeAliasConverter(r.ex); ok {
+		raw = C.String()
 	} else {
 		raw = primitiveStringer(r.ex)
 	}
